@@ -8,18 +8,7 @@ use crate::verif_harness::support::*;
 /// a LogInnerManager value whose in-memory index state is given; the file handles are real
 /// (simfs under Kani, a temp file natively) but never touched by the functions under test
 fn manager_with(indexs: Vec<InnerIdxDto>, start_index: u64, interval: u16, index_cursor: u64, msg_count: u64) -> LogInnerManager {
-    let path = scratch_path();
-    let open = || async {
-        OpenOptions::new()
-            .read(true)
-            .write(true)
-            .create(true)
-            .open(&path)
-            .await
-            .unwrap()
-    };
-    let data_file = run(open());
-    let index_file = run(open());
+    let (data_file, index_file) = files();
     let mut header = LogIndexHeaderDo::new();
     header.first_index = start_index;
     header.index_interval = interval;
@@ -39,6 +28,27 @@ fn manager_with(indexs: Vec<InnerIdxDto>, start_index: u64, interval: u16, index
         last_flush_index: start_index,
         split_off_index: start_index,
     }
+}
+
+/// under Kani the simfs File is a plain handle number: handle 0, never used by the functions under test, never dropped
+/// (opening real simfs files here made CBMC run out of memory: measured)
+#[cfg(kani)]
+fn files() -> (tokio::fs::File, tokio::fs::File) {
+    unsafe { (std::mem::zeroed(), std::mem::zeroed()) }
+}
+#[cfg(not(kani))]
+fn files() -> (tokio::fs::File, tokio::fs::File) {
+    let path = scratch_path();
+    let open = || async {
+        OpenOptions::new()
+            .read(true)
+            .write(true)
+            .create(true)
+            .open(&path)
+            .await
+            .unwrap()
+    };
+    (run(open()), run(open()))
 }
 
 #[cfg(kani)]
